@@ -4,6 +4,8 @@ import AspireModel.Model.Rows
 import AspireModel.Model.Tempering
 import AspireModel.Model.Schedule
 import AspireModel.Model.Smc
+import AspireModel.Model.Eval
+import AspireModel.Model.CkptFile
 /-
   Pure part of the line-protocol driver: one request line in, one reply line out.
   `Main.lean` only does the IO loop.  First token selects the width (`f64` / `f32`),
@@ -286,6 +288,56 @@ def opSmcLoop : P String := do
     | other => pure ("not-interrupted " ++ outRun other)
   else pure (outRun r)
 
+
+/-! ### evaluation idiom and initial population (C10, C17) -/
+
+/-- `initial n nbatches (m d x.. lq.. lp..)*` : the rejection loop of `draw_initial_samples`.
+    A point is sent together with the prior value the user's function returned for it, so the
+    model's `π` is the second projection. -/
+def opInitial : P String := do
+  let n ← nat
+  let batches ← listOf (do
+    let m ← nat; let d ← nat
+    let flat : List α ← many sc (m * d)
+    let lq : List α ← many sc m; let lp : List α ← many sc m
+    let rec rows (l : List α) (qs ps : List α) : List ((List α × α) × α) :=
+      match qs, ps with
+      | q :: qs', p :: ps' => ((l.take d, p), q) :: rows (l.drop d) qs' ps'
+      | _, _ => []
+    pure (rows flat lq lp))
+  let finite : α → Bool := fun v => !(FloatLike.isNan v) && decide (FloatLike.negInf < v) && decide (v < -FloatLike.negInf)
+  match drawInitialRows finite (fun (x : List α × α) => x.2) n batches [] 0 with
+  | none => pure "exhausted"
+  | some (rows, used) =>
+    pure ("ok " ++ toString used ++ " " ++ toString rows.length ++ " " ++ outL (rows.map (·.1.1)).flatten ++ " "
+      ++ outL (rows.map (·.2.1)) ++ " " ++ outL (rows.map (·.2.2)))
+
+/-- `calls k (kind size)*` : counter and likelihood-event sizes of a sequence of evaluation requests
+    (kind 0 = prior only, 1 = prior+likelihood, 2 = likelihood on rows carrying their prior) -/
+def opCalls : P String := do
+  let cs ← listOf (do let kind ← nat; let size ← nat; pure (kind, size))
+  let mk (size : Nat) : List Nat := List.range size
+  let calls : List (Call Nat) := cs.map fun (kind, size) =>
+    match kind with
+    | 0 => Call.priorOnly (mk size)
+    | 1 => Call.full (mk size) true
+    | _ => Call.likeCarried (mk size)
+  let st := runCalls (fun (i : Nat) => i) (fun i => i) (fun i => i) ({} : EvalState Nat Nat) calls
+  let likes := st.events.filterMap fun e => match e with
+    | Event.like pts (some a) => some (pts.length, if a.length = pts.length then 1 else 0)
+    | Event.like pts none => some (pts.length, 2)
+    | _ => none
+  pure (toString st.counter ++ " " ++ toString st.events.length ++ " " ++ outNs (likes.map (·.1)) ++ " " ++ outNs (likes.map (·.2)))
+
+
+/-! ### checkpoint dataset (C12): `dump k (len byte..)*` applies `dumpPickle` for each payload in turn -/
+def opDump : P String := do
+  let blobs ← listOf (listOf nat)
+  let f : CkptFile Unit Unit := writeAll {} (blobs.map (·.map fun b => b.toUInt8))
+  match f.ckpt with
+  | none => pure "none"
+  | some d => pure (outNs (d.map (·.toNat)))
+
 def dispatch (op : String) : P String :=
   match op with
   | "weights" => opWeights (α := α)
@@ -305,6 +357,9 @@ def dispatch (op : String) : P String :=
   | "eff" => opEff (α := α)
   | "fixed" => opFixed (α := α)
   | "smcloop" => opSmcLoop (α := α)
+  | "initial" => opInitial (α := α)
+  | "calls" => opCalls
+  | "dump" => opDump
   | _ => throw s!"unknown op {op}"
 
 end Driver
